@@ -14,4 +14,12 @@
 /* ghost statement executed only under the verifier */
 #define VERIF_GHOST(...) __VA_ARGS__
 #endif
+
+/* ghost state referenced by the in-place loop contracts (defined by each unit) */
+#ifndef VERIF_NATIVE
+extern unsigned long long verif_k;	/* ghost index: one arbitrary bit / byte / slot */
+extern int verif_old_bit;		/* value of bit verif_k on entry */
+/* bit k of a byte array, as 0/1 (no function calls are allowed in invariants) */
+#define VERIF_BIT(arr, k) ((((const unsigned char *)(arr))[(k) >> 3] >> ((k) & 7)) & 1)
+#endif
 #endif
